@@ -168,7 +168,7 @@ pub fn run(ctx: &mut Ctx) {
         "completion of the on-demand checker is observed through its worker threads ending (join is judged by C05/C19)".into(),
     ];
     let ctx = &*ctx;
-    ctx.cases("small", ctx.n(250, 12000), 0, |case| {
+    ctx.cases("small", ctx.n(600, 15000), 0, |case| {
         small_case(case, 24, &[1, 2, 3, 4, 8, 16]);
     });
     // Small models with a tiny block size, so that blocks are split and shared between workers
